@@ -43,7 +43,7 @@ def group_counting(run, ctx):
         if v is None or not v.startswith("Ok(("):
             continue
         evs = p.events
-        tl = [ev for ev in evs if ev.kind == "let" and ev.a.startswith("(") and "skip" in ev.a]
+        tl = [ev for ev in evs if ev.kind == "let" and ev.a.startswith("(") and "skip" in ev.a and (ev.b or "").startswith("(")]
         arm = [ev for ev in evs if ev.kind == "arm" and ev.a.startswith("(") and ev.a == (tl[0].a if tl else None)]
         res = [ev for ev in evs if ev.kind == "let" and re.match(r"^Expr::(Group|LookAround|AtomicGroup)\(", ev.b or "")]
         if not tl or not res:
@@ -115,12 +115,13 @@ def group_counting(run, ctx):
             continue
         K = len(pref) - 1
         ids = [(ev.a, sub(ev.b)) for ev in evs if ev.kind in ("letcond", "let") and "parse_id(" in (ev.b or "") and (ev.kind == "let" or ev.c)]
-        tl = [ev for ev in evs if ev.kind == "let" and (ev.a or "").startswith("(") and "skip" in ev.a]
+        tl = [ev for ev in evs if ev.kind == "let" and (ev.a or "").startswith("(") and "skip" in ev.a and (ev.b or "").startswith("(")]
         good = False
         if ids and tl:
-            m = re.match(r"^Some\(\((\w+),(\w+)\)\)$", ids[0][0])
+            m = re.match(r"^(?:Some\()?\((\w+),(\w+)\)\)?$", ids[0][0])
             want_call = 'parse_id(self.re[(%d + ix)..],"<",">",false)' % K
-            if m and ids[0][1] == want_call:
+            # (the failure case may be spelled `else { return Err }` or `.ok_or(..)?`)
+            if m and (ids[0][1] == want_call or ids[0][1].startswith(want_call + ".ok_or")):
                 skipv = sub(tl[0].b)
                 good = skipv in ("(None,(%d + %s))" % (K, m.group(2)), "(None,(%s + %d))" % (m.group(2), K))
         seen_named[pref] = seen_named.get(pref, True) and good
@@ -378,12 +379,20 @@ def backref_spellings(run, ctx):
     fn = _fn(run, ctx, "parse_escape", fam, label)
     n = 0
     if fn is not None:
-        calls = [H.canon(nd) for nd in H.walk(fn["body"]) if nd.get("k") == "MethodCall" and nd["name"] == "parse_named_backref"]
+        # the calls as made on each path, with named temporaries (e.g. a `(open, close)` pair chosen first) read through
+        calls = set()
+        branches = [nd["then"] for nd in H.walk(fn["body"]) if nd.get("k") == "If" and re.search(r"b'[kg]'", H.canon(nd["cond"]))]
+        for br in branches:
+            for p in S.paths_of(br, max_paths=200000):
+                sm = S.Summary(p)
+                for c_ in sm.calls:
+                    if c_.startswith("self.parse_named_backref("):
+                        calls.add(c_)
         k_forms = [c for c in calls if "Expr::Backref(" in c]
         g_forms = [c for c in calls if "Expr::SubroutineCall(" in c]
         for forms, what in ((k_forms, "\\k"), (g_forms, "\\g")):
             n += 1
-            sig = sorted(re.sub(r"\|(\w+)\| .*$", "", c) for c in forms)
+            sig = sorted(set(re.sub(r"\|(\w+)\| .*$", "", c) for c in forms))
             want = sorted(["self.parse_named_backref(end,\"'\",\"'\",true,", "self.parse_named_backref(end,\"<\",\">\",true,"])
             if sig != want:
                 run.violation(fam, label, what, H.where(fn), "the %s<..> and %s'..' forms must both accept names, numbers and relative numbers (allow_relative = true) starting after the escape letter; found %s" % (what, what, sig))
@@ -523,9 +532,25 @@ def flags_rule(run, ctx):
     m = 0
     if atom is not None:
         ca = H.canon(atom["body"])
+        # `^` / `$`: decided per path by the multi-line flag (any placement of the `if`)
+        for byte, line, text, what in (("b'^'", "Assertion::StartLine{crlf:false}", "Assertion::StartText", "`^` is a line anchor iff (?m)"),
+                                       ("b'$'", "Assertion::EndLine{crlf:false}", "Assertion::EndText", "`$` is a line anchor iff (?m)")):
+            arms_ = [a_ for nd in H.walk(atom["body"]) if nd.get("k") == "Match" for a_ in nd["arms"] if H.pat_canon(a_["pat"]) == byte]
+            good = len(arms_) == 1
+            seen_ = set()
+            if good:
+                for p in S.paths_of(arms_[0]["body"]):
+                    tr = [ev.b for ev in p.events if ev.kind == "cond" and ev.a == "self.flag(FLAG_MULTI)"]
+                    v = S.ret_value(p)
+                    if not tr or v is None:
+                        good = False
+                        break
+                    seen_.add(bool(tr[-1]))
+                    good = good and v == "Ok(((1 + ix),Expr::Assertion(%s)))" % (line if tr[-1] else text)
+            m += 1
+            if not good or seen_ != {True, False}:
+                run.violation(fam, label, "atom/" + what, H.where(atom), "parse_atom: %s; shape not found" % what)
         for want, what in (("b'.' => Ok(((1 + ix),Expr::Any{newline:self.flag(FLAG_DOTNL)}))", "`.` matches newline iff (?s)"),
-                           ("b'^' => Ok(((1 + ix),if self.flag(FLAG_MULTI) {Expr::Assertion(Assertion::StartLine{crlf:false})} else {Expr::Assertion(Assertion::StartText)}))", "`^` is a line anchor iff (?m)"),
-                           ("b'$' => Ok(((1 + ix),if self.flag(FLAG_MULTI) {Expr::Assertion(Assertion::EndLine{crlf:false})} else {Expr::Assertion(Assertion::EndText)}))", "`$` is a line anchor iff (?m)"),
                            ("Expr::Literal{casei:self.flag(FLAG_CASEI),val:From::from(self.re[ix..next])}", "a literal is case-insensitive iff (?i)")):
             m += 1
             if want not in ca:
